@@ -8,7 +8,7 @@ Import Coq.Strings.String.StringSyntax.
 (* ------------------------------------------------------------------ text form *)
 Inductive bkind := BTaken | BNotTaken | BNotExec.
 Inductive grec :=
-  | GFunction (start count : bytes) (nm : name)      (* function:<start>,<count>,<nm> *)
+  | GFunction (start count : bytes) (nm : name)      (* function:<start>,[-]<count>,<nm> *)
   | GLcount (line : bytes) (neg : bool) (count : bytes)   (* lcount:<line>,[-]<count> *)
   | GBranch (line : bytes) (k : bkind)               (* branch:<line>,taken|nottaken|notexec *)
   | GOther (key text : bytes).                       (* <key>:<text>, a key grcov does not use (version:, ...) *)
@@ -39,6 +39,13 @@ Definition gdigits (d : bytes) : bool := negb (bool_decide (d = [])) && forallb 
 (* decimal without leading zeros, as printf prints it *)
 Definition canon_dec (d : bytes) : bool :=
   gdigits d && (bool_decide (d = [48]) || negb (bool_decide (head d = Some 48))).
+(* a function's call count as gcov prints it: a canonical decimal, or - old gcov printing a counter above 2^63 through a
+   signed type - a minus sign followed by a non-zero canonical decimal *)
+Definition canon_signed (c : bytes) : bool :=
+  canon_dec c || match c with x :: d => (x =? 45) && canon_dec d && negb (bool_decide (d = [48])) | [] => false end.
+(* "the call count is not zero" (the negative-reads-as-zero rule is for line counts only) *)
+Definition count_nonzero (c : bytes) : bool :=
+  match c with x :: d => if x =? 45 then negb (dec_val d =? 0) else negb (dec_val c =? 0) | [] => false end.
 Definition not_lf (c : N) : bool := negb (c =? 10).
 (* text of a line: no LF inside, and it does not end with CR (remove_newline would eat it) *)
 Definition text_ok (t : bytes) : bool :=
@@ -48,7 +55,7 @@ Definition key_ok (k : bytes) : bool :=
   negb (bool_decide (k ∈ [k_file; k_function; k_lcount; k_branch])).
 Definition wf_grec (r : grec) : bool :=
   match r with
-  | GFunction s c nm => gdigits s && (dec_val s <? two32) && canon_dec c && text_ok nm
+  | GFunction s c nm => gdigits s && (dec_val s <? two32) && canon_signed c && text_ok nm
   | GLcount l neg c => gdigits l && (dec_val l <? two32) && gdigits c && (neg || (dec_val c <? two64))
   | GBranch l k => gdigits l && (dec_val l <? two32)
   | GOther key text => key_ok key && text_ok text
@@ -73,7 +80,7 @@ Definition branch_at (n : N) (r : grec) : option bool :=
   end.
 Definition function_at (f : name) (r : grec) : option func :=
   match r with
-  | GFunction s c nm => if bool_decide (nm = f) then Some (mkFunc (dec_val s) (negb (dec_val c =? 0))) else None
+  | GFunction s c nm => if bool_decide (nm = f) then Some (mkFunc (dec_val s) (count_nonzero c)) else None
   | _ => None
   end.
 (* the count of line n: what its lcount record says, a negative count being 0
